@@ -1,6 +1,7 @@
 package respgen
 
 import (
+	"bytes"
 	"fmt"
 	"io"
 	"net"
@@ -17,6 +18,9 @@ type FeedCase struct {
 	Client bool   `json:"client"` // client-side parser (stream = responses) instead of server-side
 	Stream []byte `json:"stream"`
 	Cuts   []int  `json:"cuts"` // ascending cut positions inside the stream
+	// Chunk > 0: the stream is fed in pieces of this many bytes (1 = byte at a time) and Cuts is
+	// ignored.
+	Chunk int `json:"chunk,omitempty"`
 	// CloseAfter: the connection is closed (CloseAndClean, as the engine does on close) after
 	// this many segments were fed; the remaining segments are fed regardless (a read that was
 	// already in flight). -1: closed only after the last segment.
@@ -32,7 +36,30 @@ func (c FeedCase) String() string {
 	if c.Client {
 		side = "client"
 	}
-	return fmt.Sprintf("%s parser, %d-byte stream %q, cuts %v, close after segment %d, %s", side, len(c.Stream), abbreviate(c.Stream, 70), c.Cuts, c.CloseAfter, c.Mode)
+	cuts := fmt.Sprint("cuts ", c.Cuts)
+	if c.Chunk > 0 {
+		cuts = fmt.Sprintf("pieces of %d bytes", c.Chunk)
+	}
+	return fmt.Sprintf("%s parser, %d-byte stream %q, %s, close after segment %d, %s", side, len(c.Stream), abbreviate(c.Stream, 70), cuts, c.CloseAfter, c.Mode)
+}
+
+// Segments returns the pieces the stream is fed in.
+func (c FeedCase) Segments() [][]byte {
+	var segs [][]byte
+	if c.Chunk > 0 {
+		for lo := 0; lo < len(c.Stream); lo += c.Chunk {
+			segs = append(segs, c.Stream[lo:min(lo+c.Chunk, len(c.Stream))])
+		}
+		return segs
+	}
+	prev := 0
+	for _, cut := range append(append([]int{}, c.Cuts...), len(c.Stream)) {
+		if cut > prev && cut <= len(c.Stream) {
+			segs = append(segs, c.Stream[prev:cut])
+			prev = cut
+		}
+	}
+	return segs
 }
 
 func abbreviate(b []byte, n int) string {
@@ -55,11 +82,24 @@ type FeedResult struct {
 	Hang      bool
 	CachedCut int // bytes held back by the parser after the first segment (-1: none)
 	Wire      int // bytes written to the connection
+	// content oracle (see checkRetained / reported below)
+	Reads        int  // Parse calls made
+	ReplaceReads int  // Parse calls that entered with a cache, consumed something and left a tail again
+	TailChecks   int  // comparisons of the retained tail with the input
+	TailDiffs    int  // retained tail differs from the input in something that is not poison (not an ownership matter)
+	Reported     int  // reported strings / byte slices inspected
+	StaleSeen    int  // reported or retained data containing the stale sentinel (Stale policy; counted, not judged)
+	ContentOff   bool // the input itself contains the poison byte: content oracle off
 }
+
+// scribbleByte is what the harness overwrites its read buffer with after every Parse call (the
+// engine reuses the buffer for the next read).
+const scribbleByte = 0xEE
 
 // StubPC is the ParserCloser installed by an Upgrade hand-over.
 type StubPC struct {
-	t      *track.T
+	t          *track.T
+	contentOff bool
 	conn   net.Conn
 	Got    []byte
 	Closed int
@@ -68,6 +108,11 @@ type StubPC struct {
 func (s *StubPC) UnderlayerConn() net.Conn { return s.conn }
 func (s *StubPC) Parse(data []byte) error {
 	s.t.Use(data, "ParserCloser.Parse")
+	if !s.contentOff {
+		if i := track.HasPoison(data); i >= 0 {
+			s.t.PoisonRead(data, "ParserCloser.Parse", fmt.Sprintf(" (%q, first at byte %d)", abbreviate(data, 48), i))
+		}
+	}
 	s.Got = append(s.Got, data...)
 	return nil
 }
@@ -83,10 +128,42 @@ func (e *Env) RunFeeds(c FeedCase, opt RunOpt) *FeedResult {
 	hc := &nbhttp.Conn{Conn: conn}
 	res := &Result{PanicOp: -1}
 	rc := &runCtx{conn: conn, hc: hc, t: t, out: res, env: e}
-	stub := &StubPC{t: t, conn: hc}
+	stub := &StubPC{t: t, conn: hc, contentOff: bytes.IndexByte(c.Stream, track.PoisonByte) >= 0}
 	var parser *nbhttp.Parser
+	// Content oracle. The allocator never recycles memory and overwrites a buffer with the poison
+	// byte when it is freed; the streams fed here do not contain that byte (else ContentOff). So a
+	// poison byte in anything the parser reports (callback arguments, error texts, bytes passed to
+	// the ParserCloser) or retains (carry-over cache, body under assembly) was read out of a buffer
+	// after it went back to the pool - also when no allocator call and no observation point sits
+	// between the Free and the read (free-then-copy).
+	out.ContentOff = bytes.IndexByte(c.Stream, track.PoisonByte) >= 0
+	reported := func(where string, s string) {
+		if out.ContentOff || len(s) == 0 {
+			return
+		}
+		out.Reported++
+		if i := strings.IndexByte(s, track.PoisonByte); i >= 0 {
+			t.PoisonRead(nil, where, fmt.Sprintf(" (%q, first at byte %d)", abbreviate([]byte(s), 48), i))
+		}
+		if opt.Policy == track.Stale && strings.IndexByte(s, track.StaleByte) >= 0 && bytes.IndexByte(c.Stream, track.StaleByte) < 0 {
+			out.StaleSeen++
+		}
+	}
+	reportedHeader := func(where string, h http.Header) {
+		for k, vs := range h {
+			reported(where+" key", k)
+			for _, v := range vs {
+				reported(where+" value", v)
+			}
+		}
+	}
 	// server-side handler
 	rc.handler = func(w http.ResponseWriter, r *http.Request) {
+		reported("handler.Method", r.Method)
+		reported("handler.RequestURI", r.RequestURI)
+		reported("handler.Proto", r.Proto)
+		reported("handler.Host", r.Host)
+		reportedHeader("handler.Header", r.Header)
 		body := ""
 		if br, ok := r.Body.(*nbhttp.BodyReader); ok && br != nil {
 			for _, b := range br.RawBodyBuffers() {
@@ -103,10 +180,12 @@ func (e *Env) RunFeeds(c FeedCase, opt RunOpt) *FeedResult {
 				b, _ := io.ReadAll(br)
 				body = string(b)
 			}
+			reported("handler.Body", body)
 		}
 		tr := ""
 		if len(r.Trailer) > 0 {
 			tr = fmt.Sprint(" trailer=", r.Trailer)
+			reportedHeader("handler.Trailer", r.Trailer)
 		}
 		out.Seen = append(out.Seen, r.Method+" "+r.URL.Path+" "+body+tr)
 		if strings.HasPrefix(r.URL.Path, "/ws") {
@@ -126,6 +205,9 @@ func (e *Env) RunFeeds(c FeedCase, opt RunOpt) *FeedResult {
 			out.Seen = append(out.Seen, "nil response err="+errStr(err))
 			return
 		}
+		reported("onResponse.Status", r.Status)
+		reported("onResponse.Proto", r.Proto)
+		reportedHeader("onResponse.Header", r.Header)
 		body := ""
 		if br, ok := r.Body.(*nbhttp.BodyReader); ok && br != nil {
 			for _, b := range br.RawBodyBuffers() {
@@ -133,10 +215,12 @@ func (e *Env) RunFeeds(c FeedCase, opt RunOpt) *FeedResult {
 			}
 			b, _ := io.ReadAll(br)
 			body = string(b)
+			reported("onResponse.Body", body)
 		}
 		tr := ""
 		if len(r.Trailer) > 0 {
 			tr = fmt.Sprint(" trailer=", r.Trailer)
+			reportedHeader("onResponse.Trailer", r.Trailer)
 		}
 		out.Seen = append(out.Seen, fmt.Sprintf("%d %s%s", r.StatusCode, body, tr))
 		if r.StatusCode == http.StatusSwitchingProtocols {
@@ -144,13 +228,51 @@ func (e *Env) RunFeeds(c FeedCase, opt RunOpt) *FeedResult {
 			out.HandOver = true
 		}
 	}
-	// segments
-	var segs [][]byte
-	prev := 0
-	for _, cut := range append(append([]int{}, c.Cuts...), len(c.Stream)) {
-		if cut > prev {
-			segs = append(segs, c.Stream[prev:cut])
-			prev = cut
+	segs := c.Segments()
+	// checkRetained compares what the parser holds back after a Parse call with the input: the
+	// cache is always the unconsumed tail of everything fed so far (on the error returns too: they
+	// leave the appended cache as it is), so its bytes are known. fed = bytes handed to Parse so far.
+	checkRetained := func(fed int) {
+		if out.ContentOff || parser.VerifParserClosed() {
+			return // a closed parser keeps its released cache pointer and never looks at it again
+		}
+		if cached := parser.VerifCached(); len(cached) > 0 && len(cached) <= fed {
+			out.TailChecks++
+			want := c.Stream[fed-len(cached) : fed]
+			if !bytes.Equal(cached, want) {
+				poison, scribble, other := -1, -1, -1
+				for i := range cached {
+					switch {
+					case cached[i] == want[i]:
+					case cached[i] == track.PoisonByte && poison < 0:
+						poison = i
+					case cached[i] == scribbleByte && scribble < 0:
+						scribble = i
+					case cached[i] == track.StaleByte && opt.Policy == track.Stale:
+						out.StaleSeen++
+					case other < 0:
+						other = i
+					}
+				}
+				detail := fmt.Sprintf(" after Parse call %d (%d bytes fed; cache %q, input tail %q)", out.Reads, fed, abbreviate(cached, 48), abbreviate(want, 48))
+				if poison >= 0 {
+					t.PoisonRead(cached, "Parser.bytesCached", detail)
+				}
+				if scribble >= 0 {
+					t.Note("read-buffer-retained", "read-buffer-retained use=Parser.bytesCached",
+						"the parser's carry-over cache changes when the caller reuses the read buffer it passed to Parse (the cache aliases memory the parser does not own)"+detail)
+				}
+				if other >= 0 {
+					out.TailDiffs++
+				}
+			}
+		}
+		for _, b := range parser.VerifPendingBody() {
+			t.Use(b, "Parser.pendingBody")
+			out.Reported++
+			if i := track.HasPoison(b); i >= 0 {
+				t.PoisonRead(b, "Parser.pendingBody", fmt.Sprintf(" after Parse call %d (%q, first at byte %d)", out.Reads, abbreviate(b, 48), i))
+			}
 		}
 	}
 	e.runGuarded(rc, func() {
@@ -170,20 +292,32 @@ func (e *Env) RunFeeds(c FeedCase, opt RunOpt) *FeedResult {
 			closed = true
 			pc.CloseAndClean(err)
 		}
+		fed := 0
 		for i, seg := range segs {
 			if c.CloseAfter == i {
 				closeConn(io.EOF)
 			}
 			// the engine passes its read buffer and reuses it afterwards
 			buf := append([]byte(nil), seg...)
+			hadCache := pc == nbhttp.ParserCloser(parser) && !parser.VerifParserClosed() && parser.VerifCachedLen() > 0
+			before := parser.VerifCachedLen()
 			err := pc.Parse(buf)
 			for j := range buf {
-				buf[j] = 0xEE
+				buf[j] = scribbleByte
 			}
+			fed += len(seg)
+			out.Reads++
 			if i == 0 {
 				out.CachedCut = parser.VerifCachedLen()
 			}
+			if pc == nbhttp.ParserCloser(parser) {
+				if after := parser.VerifCachedLen(); hadCache && err == nil && !parser.VerifParserClosed() && after > 0 && after < before+len(seg) {
+					out.ReplaceReads++
+				}
+				checkRetained(fed)
+			}
 			if err != nil {
+				reported("Parse error text", err.Error())
 				out.Errs = append(out.Errs, err.Error())
 				if !closed {
 					// the engine closes the connection on a parse error and feeds nothing more
